@@ -44,6 +44,7 @@ def key_order(S):
     from checks import C18, keylen
     C18.rule_cmp(S)
     C18.rule_slice(S)
+    C18.rule_sent(S)
     keylen.rule_narrow(S)
 
 
@@ -131,6 +132,7 @@ def gc_safety(S):
     C07.rule_ret(S)
     C07.rule_gcg(S)
     C07.rule_min(S)
+    C07.rule_walk(S)
     C07.rule_adv(S)
     C07.rule_pub(S)
     C14.rule_lve(S)
